@@ -27,6 +27,30 @@ CLAIMED = {
     "C10": ("pairing / must-pass-through / who-may-call analysis of the whiteout-marker protocol over rustc MIR",
             "Marker created on every success return of remove_* (tail calls count as success returns) and after the upper copy is removed; consulted before every layer lookup; on re-creation exactly the path's own marker is removed and only after the upper create; nothing else in the overlay touches the marker namespace; reserved namespace hidden (known finding).",
             "Listing contents are value-level; reserved names are excluded from the property's domain.", "DESIGN.md §4 C10"),
+    "C04": ("value-origin and pairing analysis over rustc MIR (publication on flush/drop, session start, length sources, copy routing)",
+            "Where a write session's bytes go: flush inserts the writer's own buffer under the captured destination on every successful return and drop always flushes; create starts empty (PhysicalFS: create+truncate), append seeds with the existing bytes and seeks End(0); metadata lengths come from the content / Metadata::len / stored length (0 for directories); generic copies stream self.open_file() into destination.create_file(); overlay copy-up and read delegation; reader window shape.",
+            "Byte equality for all contents and buffer sizes depends on std Cursor/File/io::copy (trusted) and is not decided.", "DESIGN.md §4 C04"),
+    "C05": ("value-origin and guard analysis of the observers over rustc MIR (child-path construction, is_file/is_dir, pre-order walk, key filter, merged listing, listable/readable guards)",
+            "Structural couplings between exists/metadata/read_dir/open_file/walk_dir: children are self.path + '/' + name on the same fs; is_file/is_dir = exists ∧ type; the walk yields an item in the call that queues it and only descends into directories taken from the stack; MemoryFS lists exactly the keys with the 'dir/' prefix and no further '/'; overlay set-merge minus markers and marker-first resolver; per-backend listable/readable guards; EmbeddedFS index construction.",
+            "Agreement of the observers in every reachable state needs the state and is not decided; ordering inside one directory is unspecified.", "DESIGN.md §4 C05"),
+    "C11": ("guard-dominance, kind-switch and value-origin analysis of the composite path operations over rustc MIR",
+            "Destination guard before any mutation (copy_dir: first mutation is the refusing create_dir), fast path only under Arc::ptr_eq with (src,dest) order and NotSupported as the only fall-through, generic routes (io::copy self->destination; per walked item create_dir/copy_file at destination.join(relative) by the item's type), copy_dir counter, source removal only after the copy, create_dir_all attempt-then-tolerate, backend fast paths = fs::copy/fs::rename, removal primitives really remove (Table M, overlay marker protocol).",
+            "That fast path and generic route produce identical trees, and exactness as a set of entries, are behavioural and not decided.", "DESIGN.md §4 C11"),
+    "C14": ("value-origin and guard analysis of the hand-written in-memory handles over rustc MIR",
+            "Reader seek arms by origin (End reads the length and never the cursor, Current the cursor, Start the payload), failure exactly on the checked-arithmetic None edge and never for positions past the end, read window n = min(buf.len(), len saturating- pos) with matching copy/advance/return, single-byte arm at the same start; writer write/seek are plain Cursor delegations, publication on flush/drop, append at End(0); which handle types backends hand out; async reader same rules.",
+            "Call-by-call equivalence with std::io::Cursor for every script is a refinement proof and is not decided; File/Cursor contracts trusted.", "DESIGN.md §4 C14"),
+    "C15": ("sibling agreement: all World-parametric rule sets re-evaluated on the async twins + twin event-set comparison + typestate/pairing analysis of WalkDirIterator::poll_next",
+            "The async path type, trait defaults, four backends and handles must satisfy the same structural rules as their sync twins (≈300 obligations), twin functions must agree as sets of semantic events (callees, error kinds, literals, matched variants) modulo a reasoned benign table, and poll_next must keep futures/items across Pending, never poll a completed future, and pop a directory only on Ready.",
+            "Executor liveness and async-std vs std agreement are trusted; byte-level equality not decided. Known divergences (AsyncMemoryFS timestamps, publish-on-drop writer, tokio-dependent setters) are listed as known findings.", "DESIGN.md §4 C15"),
+    "C17": ("control-dependence + kind-switch + lock-region analysis over rustc MIR",
+            "create_dir_all (both worlds) attempts create_dir on each prefix without any prior observation and tolerates exactly DirectoryExists; MemoryFS decides occupied/vacant and inserts in one write-lock region with no lock event under a live guard; PhysicalFS attempts mkdir without asking first and classifies AlreadyExists; altroot/overlay keep the DirectoryExists kind, un-mark after the create and materialise parents with create_dir_all.",
+            "Sufficient structural argument for all interleavings without concurrent removals; mkdir atomicity trusted; PhysicalFS stress part of the quantifier is a runtime matter.", "DESIGN.md §4 C17"),
+    "C18": ("body-shape, type-structure and guard analysis of impls/embedded.rs over rustc MIR; compile-fail witness (thorough)",
+            "Mutators are single-exit Err(NotSupported) bodies and optional mutators are not overridden; no interior mutability in any field type and no static mut; the path is consumed only through the one normalising step (or under a proven-safe guard); FileNotFound only on lookup misses; exists/metadata consult files then directories with the normalised key; the index construction registers every ancestor (no early loop exit, both Cow arms split at the last separator); lengths; no undischarged panic site.",
+            "Not applicable to this family: that the two maps equal the embedded folder and bytes equal the files on disk (build-time data of the rust-embed derive).", "DESIGN.md §4 C18"),
+    "C19": ("field-footprint and callee-identity analysis over rustc MIR",
+            "Each MemoryFS setter writes exactly its own field of the entry at its own path from the time argument; metadata copies same-named fields; flush carries created/accessed over from the entry found at flush time; PhysicalFS setters call exactly filetime::set_file_mtime / set_file_atime and creation time is not overridden; altroot delegates exactly; overlay metadata returns the resolved entry's metadata unchanged; embedded does not override setters.",
+            "That the OS stores the exact value (precision/range) is a runtime quantity and is not decided. Overlay setters on lower-only files are a known finding.", "DESIGN.md §4 C19"),
     "C08": ("effect + provenance analysis over rustc MIR (mutated-operand origin, observer purity)",
             "Static effect/provenance analysis of every call site reachable from OverlayFS (sync and async): each path operand in a mutated position must originate from layers[0]; observers must reach no mutating call. Necessary and, under the stated assumption, sufficient for the property, for all histories/inputs/stackings at once.",
             "Assumes a layer's own observing methods do not mutate that layer (checked as a note for in-crate backends, assumed for foreign FileSystem impls); trusts rustc's MIR and callee resolution.", "DESIGN.md §4 C08"),
